@@ -132,6 +132,13 @@ def F11(env):
        '<geom type="box" size=".1 .2 .3"/></body></worldbody></mujoco>', ['qvel'], qvel=[0, 0, 0, 3.0, 2.0, 1.0], step=True)
 
 
+def F12(env):
+  _cmp(env, 'F12 implicitfast: deriv_smooth_vel uses the unclamped ctrl of a damper actuator -> M - h*qDeriv indefinite -> NaN',
+       '<mujoco><option integrator="implicitfast" timestep="0.008"/><worldbody><body><joint name="j" type="hinge" axis="0 1 0"/>'
+       '<geom type="capsule" size=".04 .12" density="800"/></body></worldbody><actuator><damper joint="j" kv="1.7" ctrlrange="0 1.4"/></actuator></mujoco>',
+       ['qvel'], ctrl=[-1.9], qvel=[0.3], step=True)
+
+
 def F13(env):
   _cmp(env, 'F13 implicitfast: C skips the velocity derivative of an actuator clamped by forcerange, MJX does not',
        '<mujoco><option integrator="implicitfast"/><worldbody>' + HINGE % '' + '</worldbody>'
@@ -205,7 +212,7 @@ def F20(env):
   _raises(env, 'nv=0', '<mujoco><worldbody><geom size=".1"/></worldbody></mujoco>')
 
 
-ALL = [F1, F2, F3, F4, F5, F9, F10, F11, F13, F14, F15, F16, F17, F18, F19, F20]
+ALL = [F1, F2, F3, F4, F5, F9, F10, F11, F12, F13, F14, F15, F16, F17, F18, F19, F20]
 
 if __name__ == '__main__':
   env = _setup()
